@@ -243,3 +243,29 @@ func TestC08_backoff(t *testing.T) {
 	e2Check(t, "C08", "backoff", 1200, "as history, but every Job is parallel (2-3 indexes, 2-5 attempts, retry delay 5-120 s), containers mostly fail and the clock moves in steps around the retry delays, so that several indexes are in back-off at once with different due times; non-trivial = a retry was created after a delay; distinct = distinct trace",
 		p, []string{"C08"}, func(l []string) bool { return hasAny(l, "retry-after-delay") })
 }
+
+// TestC12_force: kills and deletions of Jobs whose Pods are scheduled and linger
+// in termination (the kubelet model confirms a termination rarely), a force-delete
+// timeout of 10-20 s, a third of the JobConfigs forbidding force deletion, clock
+// steps around the timeout.
+func TestC12_force(t *testing.T) {
+	p := profileWith(baseProfile, func(p *e2Profile) {
+		p.forceHeavy = true
+		p.lag = false // settle-driven: the chain create - schedule - kill - wait has to complete often
+		p.maxJCs, p.maxJobs, p.steps = 2, 4, 50
+		p.weights["createJob"] = 8
+		p.weights["kill"] = 12
+		p.weights["deleteJob"] = 3
+		p.weights["deletePod"] = 3
+		p.weights["k-schedule"] = 16
+		p.weights["k-run"] = 4
+		p.weights["k-finish"] = 1
+		p.weights["k-restart"] = 0
+		p.weights["k-terminate"] = 1
+		p.weights["advance"] = 14
+		p.weights["settle"] = 16
+		p.weights["gc"] = 0
+	})
+	e2Check(t, "C12", "force", 1200, "as history, but with a force-delete timeout of 10-20 s always configured, a third of the JobConfigs forbidding force deletion, frequent kills of Jobs whose Pods are scheduled and rarely confirmed terminated, and clock steps around the timeout; non-trivial = a force delete happened or a terminating task outlived the timeout where force deletion is forbidden; distinct = distinct trace",
+		p, []string{"C12"}, func(l []string) bool { return hasAny(l, "force-delete", "force-forbidden-outlived") })
+}
